@@ -200,6 +200,8 @@ type fsSite struct {
 	inst *casket.Instance
 	addr string
 	err  error
+	// the Casketfile the site was started from: fixture path and text
+	cfPath, cfText string
 }
 
 var (
@@ -236,11 +238,39 @@ func fsSiteFor(keyFields []string, casketfileText func(T string) (string, error)
 	if s, ok := fsSites[key]; ok {
 		return s, s.err
 	}
-	s := &fsSite{}
+	s := fsStartSite(keyFields, casketfileText)
 	fsSites[key] = s
-	fail := func(err error) (*fsSite, error) {
+	return s, s.err
+}
+
+// fsFreshSite starts a site of its own for one case (a case that changes the fixture while
+// the site runs); the caller stops it with fsStopSite.  Starts and stops are serialised with
+// those of fsSiteFor.
+func fsFreshSite(keyFields []string, casketfileText func(T string) (string, error)) (*fsSite, error) {
+	fsMu.Lock()
+	defer fsMu.Unlock()
+	s := fsStartSite(keyFields, casketfileText)
+	return s, s.err
+}
+
+func fsStopSite(s *fsSite) {
+	fsMu.Lock()
+	defer fsMu.Unlock()
+	if s.inst != nil {
+		s.inst.Stop()
+		s.inst = nil
+	}
+	if s.T != "" {
+		os.RemoveAll(s.T)
+	}
+}
+
+// fsStartSite materialises the fixture in a new temp dir and starts the site (s.err on failure).
+func fsStartSite(keyFields []string, casketfileText func(T string) (string, error)) *fsSite {
+	s := &fsSite{}
+	fail := func(err error) *fsSite {
 		s.err = err
-		return s, err
+		return s
 	}
 	fx, err := parseFixture(hx.UnHS(keyFields[0]))
 	if err != nil {
@@ -260,6 +290,7 @@ func fsSiteFor(keyFields []string, casketfileText func(T string) (string, error)
 		return fail(err)
 	}
 	cf := hx.UnHS(keyFields[2])
+	s.cfPath, s.cfText = cf, text
 	if err := fx.materialise(T, cf, text); err != nil {
 		return fail(err)
 	}
@@ -272,7 +303,7 @@ func fsSiteFor(keyFields []string, casketfileText func(T string) (string, error)
 		return fail(fmt.Errorf("no listener"))
 	}
 	s.addr = fmt.Sprintf("127.0.0.1:%d", inst.Servers()[0].Addr().(*net.TCPAddr).Port)
-	return s, nil
+	return s
 }
 
 // fetch writes one raw request and returns the parsed response with its body.
@@ -343,12 +374,16 @@ func fsRender(method string, resp *http.Response, body []byte, rerr error, headE
 	}
 	// a body compressed on the fly (gzip directive) is decoded before looking for tokens
 	decoded := body
+	// the bytes of an archive: a site with the gzip directive compresses the whole response for a
+	// client that accepts gzip (Content-Encoding: gzip) — also a zip, a tar, and a tar.gz once more
+	archiveBody := body
 	if len(body) > 2 && body[0] == 0x1f && body[1] == 0x8b {
 		if zr, err := gzip.NewReader(bytes.NewReader(body)); err == nil {
 			if d, err := io.ReadAll(zr); err == nil {
 				decoded = d
 				if ce == "gzip" {
 					ce = "-" // compressed on the fly by the gzip directive, not a precompressed sibling
+					archiveBody = d
 				}
 			}
 		}
@@ -367,7 +402,7 @@ func fsRender(method string, resp *http.Response, body []byte, rerr error, headE
 	}
 	isArchive := strings.HasPrefix(resp.Header.Get("Content-Disposition"), "attachment")
 	if st == 200 && isArchive {
-		items, err := fsArchiveItems(resp.Header.Get("Content-Type"), body)
+		items, err := fsArchiveItems(resp.Header.Get("Content-Type"), archiveBody)
 		if err != nil {
 			return "A\t?" + err.Error(), "archive-broken"
 		}
